@@ -63,7 +63,8 @@ class IC10Register:
                 return self._lifetime
 
             for node in self.nodes_writing:
-                if node.scope().name == "":
+                # module-level variables (of the main file or of a library module) live forever
+                if isinstance(node.scope(), nodes.Module):
                     self._lifetime = range(0, sys.maxsize)
                     break
 
